@@ -226,9 +226,10 @@ class ContractionTree:
                 "ordered indices corresponding to array axes."
             )
 
-        if not isinstance(next(iter(size_dict.values()), 1), int):
+        if any(not isinstance(d, int) for d in size_dict.values()):
             # make sure we are working with python integers to avoid overflow
-            # comparison errors with inf etc.
+            # comparison errors with inf etc. (n.b. need to check every size,
+            # since e.g. only some of them might be numpy integers)
             self.size_dict = {k: int(v) for k, v in size_dict.items()}
         else:
             self.size_dict = size_dict
